@@ -118,17 +118,27 @@ class C20(Prop):
             if k == "parse":
                 d = scn["tokens"]
                 rec["tokens"], rec["fmt"] = d, scn["fmt"]
-                if scn["fmt"] == "str":
-                    arg = "".join(CH[t] for t in d)
-                elif scn["fmt"] == "chars":
-                    arg = [CH[t] for t in d]
-                elif scn["fmt"] == "list":
-                    arg = list(d)
-                elif scn["fmt"] == "tuple":
-                    arg = tuple(d)
-                else:
-                    arg = numpy.array(d) if be.name == "py" else be.torch.tensor(d)
-                rec["ret"] = be.p_pauli(P.pauli(arg))
+
+                def mk():
+                    if scn["fmt"] == "str":
+                        return "".join(CH[t] for t in d)
+                    if scn["fmt"] == "chars":
+                        return [CH[t] for t in d]
+                    if scn["fmt"] == "list":
+                        return list(d)
+                    if scn["fmt"] == "tuple":
+                        return tuple(d)
+                    return numpy.array(d) if be.name == "py" else be.torch.tensor(d)
+                x = P.pauli(mk())
+                rec["ret"] = be.p_pauli(x)
+                # the same description parsed AGAIN after the caller changed the first result in place (its own object: the
+                # letters through the public array, and a rotation by a single-letter generator): same operator as before
+                try:
+                    x.g[...] = 1 - x.g
+                    x.rotate_by(be.pauli([1] + [0] * (len(be.p_pauli(x)) - 2) + [0]))
+                except Exception:
+                    pass
+                rec["ret2"] = be.p_pauli(P.pauli(mk()))
             elif k == "parsedict":
                 rec["n"], rec["items"] = scn["n"], scn["items"]
                 d = {q - 1: (l if (q + l) % 2 else "IXYZ"[l]) for q, l in scn["items"]}
